@@ -6,7 +6,7 @@ import glob, json, os, re, subprocess, sys, shutil
 from concurrent.futures import ThreadPoolExecutor
 
 ROOT = sys.argv[2] if len(sys.argv) > 2 else "/tmp/mut"
-OUT = "/tmp/mv"
+OUT = os.environ.get("MUT_OUT", "/tmp/mv")
 os.makedirs(OUT, exist_ok=True)
 
 
